@@ -20,17 +20,43 @@
 //! Regions are unions of convex contours, all counter-clockwise, tested with the NonZero rule.
 //! The band `delta` excused around the region's edges is rounding only.
 //!
+//! CALL HISTORY (the `Hist` of a case, drawn from the case RNG after the polyline and the configuration):
+//! in about half of the cases of the four checker families the polyline under test is NOT stroked alone on a
+//! fresh tessellator.  It is the LAST sub-path of a program on one `StrokeBuilder`
+//! (`StrokeTessellator::builder` / `builder_with_attributes`) whose earlier calls are other sub-paths (lines
+//! and curves, any shape), `add_rectangle` (thin = the `approximate_thin_rectangle` fallback that temporarily
+//! changes `options.line_width`, borderline, flat, thin in both directions, ordinary), `add_circle`,
+//! `add_ellipse`, `add_rounded_rectangle`, `add_polygon`, `add_line_segment`, `add_point` and the option setters
+//! (the builder may be created with another join / caps / miter limit; `set_line_join`, `set_start_cap`,
+//! `set_end_cap`, `set_miter_limit` bring the options back to the case's configuration before the sub-path
+//! under test, which is fed through begin / line_to / end, `add_polygon` or `add_line_segment`); or the last
+//! sub-path of a multi-sub-path `Path` / event stream for the other entry points (with the variable-width
+//! entries the earlier sub-paths have a width that varies from endpoint to endpoint); and the
+//! `StrokeTessellator` object may have been used for an unrelated tessellation before.  Only the triangles
+//! emitted FOR THE SUB-PATH UNDER TEST (everything the geometry builder receives after the earlier items are
+//! complete; vertices by id) go to the checker, against the same regions and the case's configured width: the
+//! property quantifies over polyline x configuration, so what the builder object did before must not matter.
+//! Tie family `progmesh`: the whole output of such programs (every vertex position, every triangle) bit for bit
+//! against the program model `Model/Tess/StrokeBuilderProg.lean` (`tessellateProg`).
+//!
 //! Tie families (model vs real code, bit level): `normal` (`compute_normal`), `stroke2` (whole mesh of
 //! a two-segment polyline against the component model `StrokeQuad.stroke2`), `fullmesh` (whole mesh -
 //! every emitted vertex position in order, every triangle id - of a polyline of the explored regime,
 //! 1..7 segments, open or closed, every join and cap, the four fixed-width entry points, against the
 //! COMPLETE stroker model `StrokeFull.tessellateFw`: the model the theorems `stroke_polyline_covers_rectangles`
-//! / `stroke_polyline_reach` of `Props/C06b.lean` are about).
+//! / `stroke_polyline_reach` of `Props/C06b.lean` are about), `progmesh` (whole output of a program on one
+//! `StrokeBuilder` - a call history as described below, then a polyline of the regime - against the program
+//! model `StrokeBuilderProg.tessellateProg`).
 
-use lyon_path::math::{point, Point};
-use lyon_path::Path;
-use lyon_tessellation::geometry_builder::{BuffersBuilder, Positions, VertexBuffers};
-use lyon_tessellation::{LineCap, LineJoin, StrokeOptions, StrokeTessellator};
+use lyon_path::builder::BorderRadii;
+use lyon_path::geom::{Angle, Box2D, LineSegment};
+use lyon_path::math::{point, vector, Point, Vector};
+use lyon_path::traits::PathBuilder as AttrPathBuilder;
+use lyon_path::{EndpointId, IdEvent, Path, PathEvent, Polygon, Winding};
+use lyon_tessellation::geometry_builder::{BuffersBuilder, GeometryBuilder, GeometryBuilderError, Positions, StrokeGeometryBuilder, VertexBuffers};
+use lyon_tessellation::{LineCap, LineJoin, StrokeBuilder, StrokeOptions, StrokeTessellator, StrokeVertex, VertexId};
+use std::cell::Cell;
+use std::rc::Rc;
 use vh::{CaseOut, Ctx, Oracle, Out, Rng};
 
 type V = (f64, f64);
@@ -211,6 +237,633 @@ fn run_stroke(poly: &Poly, cfg: &Cfg, mesh: &mut Mesh) -> Result<(), String> {
         }
     };
     r.map_err(|e| format!("{:?}", e))
+}
+
+// ---------------------------------------------------------------------------------------------
+// call history: what the StrokeBuilder / StrokeTessellator object did BEFORE the sub-path under test
+
+#[derive(Clone, Debug)]
+enum Seg {
+    Line(Point),
+    Quad(Point, Point),
+    Cubic(Point, Point, Point),
+}
+
+/// one call (or one begin .. end group of calls) on the builder before the sub-path under test
+#[derive(Clone, Debug)]
+enum Item {
+    /// begin, line_to / quadratic_bezier_to / cubic_bezier_to *, end(close); the last field: a width factor per
+    /// endpoint (used by the variable-width entries only)
+    Path(Point, Vec<Seg>, bool, Vec<f32>),
+    Rect(Box2D<f32>, bool),
+    Circle(Point, f32, bool),
+    Ellipse(Point, Vector, f32, bool),
+    RoundRect(Box2D<f32>, [f32; 4], bool),
+    Polygon(Vec<Point>, bool),
+    Segment(Point, Point),
+    PointAt(Point),
+    SetJoin(LineJoin),
+    SetStartCap(LineCap),
+    SetEndCap(LineCap),
+    SetMiterLimit(f32),
+}
+
+#[derive(Clone, Debug)]
+struct Hist {
+    /// empty: the polyline is stroked alone
+    items: Vec<Item>,
+    /// join, caps, miter limit the builder is CREATED with (builder entry; the setters in `items` end on the
+    /// case's configuration)
+    init: (LineJoin, LineCap, LineCap, f32),
+    /// builder entry: 0 = `StrokeTessellator::builder`, n > 0 = `builder_with_attributes(n, ..)`
+    n_attr: usize,
+    /// builder entry, how the sub-path under test is fed: 0 begin / line_to / end, 1 add_polygon, 2 add_line_segment
+    via: u8,
+    /// an unrelated tessellation on the same StrokeTessellator object before (seed of it)
+    warm: Option<u64>,
+    /// kind of the last geometry item (tag)
+    last: &'static str,
+}
+
+fn winding(positive: bool) -> Winding {
+    if positive {
+        Winding::Positive
+    } else {
+        Winding::Negative
+    }
+}
+
+fn radii_of(r: &[f32; 4]) -> BorderRadii {
+    BorderRadii { top_left: r[0], top_right: r[1], bottom_left: r[2], bottom_right: r[3] }
+}
+
+/// geometry builder that records positions and triangles and, for each, whether it was emitted while `on`
+/// was set (= for the sub-path under test)
+struct Rec {
+    verts: Vec<Point>,
+    tris: Vec<[u32; 3]>,
+    vsel: Vec<bool>,
+    tsel: Vec<bool>,
+    on: Rc<Cell<bool>>,
+}
+
+impl Rec {
+    fn new(on: bool) -> Rec {
+        Rec { verts: Vec::new(), tris: Vec::new(), vsel: Vec::new(), tsel: Vec::new(), on: Rc::new(Cell::new(on)) }
+    }
+    /// all vertices (ids stay valid) + the selected triangles
+    fn selected(&self) -> Mesh {
+        let mut m = Mesh::new();
+        m.vertices = self.verts.clone();
+        for (t, s) in self.tris.iter().zip(self.tsel.iter()) {
+            if *s {
+                m.indices.extend_from_slice(t);
+            }
+        }
+        m
+    }
+}
+
+impl GeometryBuilder for Rec {
+    fn add_triangle(&mut self, a: VertexId, b: VertexId, c: VertexId) {
+        self.tris.push([a.0, b.0, c.0]);
+        self.tsel.push(self.on.get());
+    }
+}
+
+impl StrokeGeometryBuilder for Rec {
+    fn add_stroke_vertex(&mut self, v: StrokeVertex) -> Result<VertexId, GeometryBuilderError> {
+        self.verts.push(v.position());
+        self.vsel.push(self.on.get());
+        Ok(VertexId(self.verts.len() as u32 - 1))
+    }
+}
+
+/// event iterator that sets `on` when it hands out the Begin event number `skip` (0-based): the stroker pulls
+/// events one at a time, so everything emitted before belongs to the earlier sub-paths
+struct Flagged<I, F> {
+    it: I,
+    skip: usize,
+    on: Rc<Cell<bool>>,
+    is_begin: F,
+}
+
+impl<E, I: Iterator<Item = E>, F: Fn(&E) -> bool> Iterator for Flagged<I, F> {
+    type Item = E;
+    fn next(&mut self) -> Option<E> {
+        let e = self.it.next();
+        if let Some(ev) = &e {
+            if (self.is_begin)(ev) {
+                if self.skip == 0 {
+                    self.on.set(true);
+                } else {
+                    self.skip -= 1;
+                }
+            }
+        }
+        e
+    }
+}
+
+/// one history item on the real builder (`a` = the custom attributes passed along; empty for
+/// `StrokeTessellator::builder`, whose `NoAttributes` wrapper forwards exactly these calls)
+fn apply_item(b: &mut StrokeBuilder, a: &[f32], it: &Item) {
+    match it {
+        Item::Path(start, segs, close, _) => {
+            b.begin(*start, a);
+            for s in segs {
+                match s {
+                    Seg::Line(p) => b.line_to(*p, a),
+                    Seg::Quad(c, p) => b.quadratic_bezier_to(*c, *p, a),
+                    Seg::Cubic(c1, c2, p) => b.cubic_bezier_to(*c1, *c2, *p, a),
+                };
+            }
+            b.end(*close);
+        }
+        Item::Rect(r, pos) => b.add_rectangle(r, winding(*pos), a),
+        Item::Circle(c, r, pos) => b.add_circle(*c, *r, winding(*pos), a),
+        Item::Ellipse(c, r, rot, pos) => b.add_ellipse(*c, *r, Angle::radians(*rot), winding(*pos), a),
+        Item::RoundRect(bx, r, pos) => b.add_rounded_rectangle(bx, &radii_of(r), winding(*pos), a),
+        Item::Polygon(pts, closed) => b.add_polygon(Polygon { points: &pts[..], closed: *closed }, a),
+        Item::Segment(p, q) => {
+            b.add_line_segment(&LineSegment { from: *p, to: *q }, a);
+        }
+        Item::PointAt(p) => {
+            b.add_point(*p, a);
+        }
+        Item::SetJoin(j) => b.set_line_join(*j),
+        Item::SetStartCap(c) => b.set_start_cap(*c),
+        Item::SetEndCap(c) => b.set_end_cap(*c),
+        Item::SetMiterLimit(m) => b.set_miter_limit(*m),
+    }
+}
+
+/// the whole program of a builder case: the history items, then (with `on` set) the sub-path under test
+fn drive_builder(b: &mut StrokeBuilder, a: &[f32], poly: &Poly, hist: &Hist, on: &Rc<Cell<bool>>) {
+    for it in &hist.items {
+        apply_item(b, a, it);
+    }
+    on.set(true);
+    let pts = poly.f32pts();
+    match hist.via {
+        1 => b.add_polygon(Polygon { points: &pts[..], closed: poly.closed }, a),
+        2 if pts.len() == 2 && !poly.closed => {
+            b.add_line_segment(&LineSegment { from: pts[0], to: pts[1] }, a);
+        }
+        _ => {
+            b.begin(pts[0], a);
+            for q in &pts[1..] {
+                b.line_to(*q, a);
+            }
+            b.end(poly.closed);
+        }
+    }
+}
+
+/// An unrelated tessellation on the same `StrokeTessellator` object before the one under test (another entry
+/// point, custom attributes, possibly variable width, a thin rectangle, a builder dropped without `build`).
+fn warm_up(tess: &mut StrokeTessellator, salt: u64) {
+    let mut rng = Rng::new(salt, 1);
+    let n_attr = rng.range(1, 4) as usize;
+    let w = rng.uniform(0.3, 6.0) as f32;
+    let joins = [LineJoin::Miter, LineJoin::MiterClip, LineJoin::Round, LineJoin::Bevel];
+    let caps = [LineCap::Butt, LineCap::Square, LineCap::Round];
+    let mut opts = StrokeOptions::tolerance(rng.uniform(0.02, 0.5) as f32).with_line_width(w).with_line_join(*rng.pick(&joins)).with_line_cap(*rng.pick(&caps));
+    let variable = rng.chance(1, 3);
+    if variable {
+        opts = opts.with_variable_line_width(0);
+    }
+    let mut at = |rng: &mut Rng| (0..n_attr).map(|_| rng.uniform(0.5, 2.0) as f32).collect::<Vec<f32>>();
+    let rp = |rng: &mut Rng| point(rng.uniform(-30.0, 30.0) as f32, rng.uniform(-30.0, 30.0) as f32);
+    let mut sink = Rec::new(false);
+    let mode = rng.below(4);
+    if mode < 2 {
+        let mut pb = Path::builder_with_attributes(n_attr);
+        for _ in 0..rng.range(1, 3) {
+            pb.begin(rp(&mut rng), &at(&mut rng));
+            for _ in 0..rng.range(1, 4) {
+                if rng.chance(1, 3) {
+                    pb.quadratic_bezier_to(rp(&mut rng), rp(&mut rng), &at(&mut rng));
+                } else {
+                    pb.line_to(rp(&mut rng), &at(&mut rng));
+                }
+            }
+            pb.end(rng.chance(1, 2));
+        }
+        let path = pb.build();
+        let _ = if mode == 0 { tess.tessellate_path(&path, &opts, &mut sink) } else { tess.tessellate_with_ids(path.id_iter(), &path, Some(&path), &opts, &mut sink) };
+    } else {
+        let mut b = tess.builder_with_attributes(n_attr, &opts, &mut sink);
+        let a = at(&mut rng);
+        let c = rp(&mut rng);
+        b.add_polygon(Polygon { points: &[rp(&mut rng), rp(&mut rng), rp(&mut rng)], closed: rng.chance(1, 2) }, &a);
+        b.add_rectangle(&Box2D { min: c, max: point(c.x + 20.0, c.y + w * rng.uniform(0.0, 1.2) as f32) }, Winding::Positive, &a);
+        if rng.chance(1, 2) {
+            b.add_circle(rp(&mut rng), rng.uniform(1.0, 10.0) as f32, Winding::Positive, &a);
+        }
+        if mode == 2 {
+            let _ = lyon_path::builder::Build::build(b);
+        }
+        // mode 3: the builder is dropped without build()
+    }
+}
+
+/// Stroke the case: the history, then the polyline under test; `rec` marks what was emitted for the latter.
+fn run_hist(poly: &Poly, cfg: &Cfg, hist: &Hist, rec: &mut Rec) -> Result<(), String> {
+    let mut tess = StrokeTessellator::new();
+    if let Some(salt) = hist.warm {
+        warm_up(&mut tess, salt);
+    }
+    let opts = cfg.options();
+    let on = rec.on.clone();
+    on.set(hist.items.is_empty());
+    let subs_before = hist.items.len();
+    // the path of the non-builder entries: the history's sub-paths, then the polyline (one attribute for the
+    // variable-width entries: the width factor)
+    let vw_a: f32 = if cfg.entry == 4 { 2.0 } else { 0.5 };
+    let build_path = |with_poly: bool, n_attr: usize| -> Path {
+        let mut b = Path::builder_with_attributes(n_attr);
+        let at = |f: f32| if n_attr == 0 { Vec::new() } else { vec![vw_a * f] };
+        for it in &hist.items {
+            if let Item::Path(start, segs, close, wf) = it {
+                b.begin(*start, &at(wf[0]));
+                for (k, s) in segs.iter().enumerate() {
+                    let a = at(wf[k + 1]);
+                    match s {
+                        Seg::Line(p) => b.line_to(*p, &a),
+                        Seg::Quad(c, p) => b.quadratic_bezier_to(*c, *p, &a),
+                        Seg::Cubic(c1, c2, p) => b.cubic_bezier_to(*c1, *c2, *p, &a),
+                    };
+                }
+                b.end(*close);
+            }
+        }
+        if with_poly {
+            let p = poly.f32pts();
+            b.begin(p[0], &at(1.0));
+            for q in &p[1..] {
+                b.line_to(*q, &at(1.0));
+            }
+            b.end(poly.closed);
+        }
+        b.build()
+    };
+    let r = match cfg.entry {
+        2 => {
+            let io = opts.with_line_join(hist.init.0).with_start_cap(hist.init.1).with_end_cap(hist.init.2).with_miter_limit(hist.init.3);
+            if hist.n_attr == 0 {
+                let mut b = tess.builder(&io, rec);
+                drive_builder(b.inner_mut(), &[], poly, hist, &on);
+                lyon_path::builder::Build::build(b)
+            } else {
+                let a: Vec<f32> = (0..hist.n_attr).map(|k| 1.5 - k as f32).collect();
+                let mut b = tess.builder_with_attributes(hist.n_attr, &io, rec);
+                drive_builder(&mut b, &a, poly, hist, &on);
+                lyon_path::builder::Build::build(b)
+            }
+        }
+        1 => {
+            let path = build_path(true, 0);
+            let it = Flagged { it: path.iter(), skip: subs_before, on: on.clone(), is_begin: |e: &PathEvent| matches!(e, PathEvent::Begin { .. }) };
+            tess.tessellate(it, &opts, rec)
+        }
+        3 => {
+            let path = build_path(true, 0);
+            let it = Flagged { it: path.id_iter(), skip: subs_before, on: on.clone(), is_begin: |e: &IdEvent| matches!(e, IdEvent::Begin { .. }) };
+            tess.tessellate_with_ids(it, &path, None, &opts, rec)
+        }
+        e => {
+            // tessellate_path takes the whole path: what belongs to the earlier sub-paths is counted by
+            // stroking them alone (same entry, fresh tessellator) - the stroker emits sub-path after sub-path
+            let n_attr = if e == 0 { 0 } else { 1 };
+            let o2 = if e == 0 { opts } else { opts.with_line_width(cfg.w / vw_a).with_variable_line_width(0) };
+            let (mut nv0, mut nt0) = (0, 0);
+            if !hist.items.is_empty() {
+                let mut pre = Rec::new(false);
+                let prefix = build_path(false, n_attr);
+                StrokeTessellator::new().tessellate_path(&prefix, &o2, &mut pre).map_err(|e| format!("{:?}", e))?;
+                nv0 = pre.verts.len();
+                nt0 = pre.tris.len();
+            }
+            let path = build_path(true, n_attr);
+            let r = tess.tessellate_path(&path, &o2, rec);
+            for (i, s) in rec.vsel.iter_mut().enumerate() {
+                *s = i >= nv0;
+            }
+            for (i, s) in rec.tsel.iter_mut().enumerate() {
+                *s = i >= nt0;
+            }
+            r
+        }
+    };
+    r.map_err(|e| format!("{:?}", e))
+}
+
+/// The call history of a case.  `force`: always a non-empty program on the builder entry.
+fn gen_hist(rng: &mut Rng, poly: &Poly, cfg: &mut Cfg, force: bool) -> Hist {
+    let mode = if force { 7 } else { rng.below(8) };
+    let warm = if mode == 3 || (mode >= 4 && rng.chance(1, 3)) { Some(rng.next()) } else { None };
+    let mut h = Hist { items: Vec::new(), init: (cfg.join, cfg.cap1, cfg.cap2, cfg.ml), n_attr: 0, via: 0, warm, last: "none" };
+    if mode < 4 {
+        return h;
+    }
+    let builder = force || cfg.entry == 2 || rng.chance(2, 3);
+    if builder {
+        cfg.entry = 2;
+    }
+    let vw = cfg.entry >= 4;
+    let w = cfg.w;
+    // where the earlier items live: around the polyline (overlapping it or not: it does not matter)
+    let (mut lo, mut hi) = ((f64::MAX, f64::MAX), (f64::MIN, f64::MIN));
+    for p in &poly.pts {
+        lo = (lo.0.min(p.0), lo.1.min(p.1));
+        hi = (hi.0.max(p.0), hi.1.max(p.1));
+    }
+    let c = ((lo.0 + hi.0) * 0.5, (lo.1 + hi.1) * 0.5);
+    let ext = ((hi.0 - lo.0).max(hi.1 - lo.1).max(8.0 * w as f64)) as f32;
+    let rp = move |rng: &mut Rng| point(c.0 as f32 + ext * rng.uniform(-1.5, 1.5) as f32, c.1 as f32 + ext * rng.uniform(-1.5, 1.5) as f32);
+    let joins = [LineJoin::Miter, LineJoin::Miter, LineJoin::MiterClip, LineJoin::Round, LineJoin::Bevel];
+    let caps = [LineCap::Butt, LineCap::Square, LineCap::Round];
+    let limits = [1.0f32, 1.25, 2.0, 4.0, 10.0];
+    if builder {
+        if rng.chance(1, 2) {
+            h.init = (*rng.pick(&joins), *rng.pick(&caps), *rng.pick(&caps), *rng.pick(&limits));
+        }
+        h.n_attr = if rng.chance(1, 3) { rng.range(1, 3) as usize } else { 0 };
+        h.via = rng.below(3) as u8;
+    }
+    // the options in force while the items are generated (the thin-rectangle threshold depends on the join)
+    let mut cur = h.init;
+    let n = rng.range(1, 4);
+    for _ in 0..n {
+        if builder && rng.chance(1, 3) {
+            let s = match rng.below(4) {
+                0 => {
+                    cur.0 = *rng.pick(&joins);
+                    Item::SetJoin(cur.0)
+                }
+                1 => {
+                    cur.1 = *rng.pick(&caps);
+                    Item::SetStartCap(cur.1)
+                }
+                2 => {
+                    cur.2 = *rng.pick(&caps);
+                    Item::SetEndCap(cur.2)
+                }
+                _ => {
+                    cur.3 = *rng.pick(&limits);
+                    Item::SetMiterLimit(cur.3)
+                }
+            };
+            h.items.push(s);
+        }
+        let kind = if builder { rng.below(16) } else { 0 };
+        let radius = |rng: &mut Rng| match rng.below(3) {
+            0 => w * rng.uniform(0.05, 1.5) as f32,
+            _ => ext * rng.uniform(0.05, 0.6) as f32,
+        };
+        let (item, name) = match kind {
+            0..=3 => {
+                let start = rp(rng);
+                let mut last = start;
+                let mut segs = Vec::new();
+                let mut curvy = false;
+                for _ in 0..rng.range(0, 5).max(1) {
+                    let p = match rng.below(6) {
+                        // a short edge against the width
+                        0 => point(last.x + w * rng.uniform(-0.6, 0.6) as f32, last.y + w * rng.uniform(-0.6, 0.6) as f32),
+                        _ => rp(rng),
+                    };
+                    segs.push(match rng.below(8) {
+                        0 => {
+                            curvy = true;
+                            Seg::Quad(rp(rng), p)
+                        }
+                        1 => {
+                            curvy = true;
+                            Seg::Cubic(rp(rng), rp(rng), p)
+                        }
+                        _ => Seg::Line(p),
+                    });
+                    last = p;
+                }
+                let wf: Vec<f32> = (0..segs.len() + 1).map(|_| if vw { rng.uniform(0.3, 2.5) as f32 } else { 1.0 }).collect();
+                (Item::Path(start, segs, rng.chance(1, 3), wf), if curvy { "curve-path" } else { "polyline" })
+            }
+            4..=9 => {
+                let thr = if cur.0 == LineJoin::Miter { 1.0 } else { 0.05 } * w;
+                let long = ext * rng.uniform(0.2, 1.5) as f32;
+                let (short, name) = match rng.below(10) {
+                    0..=3 => (thr * rng.uniform(0.05, 0.98) as f32, "thin-rect"),
+                    4 => (thr * *rng.pick(&[0.999f32, 1.0, 1.001]), "borderline-rect"),
+                    5 => (0.0, "flat-rect"),
+                    6 => (thr * rng.uniform(0.05, 0.98) as f32, "thin2-rect"),
+                    _ => (ext * rng.uniform(0.2, 1.5) as f32, "rect"),
+                };
+                let long = if name == "thin2-rect" { thr * rng.uniform(0.05, 0.98) as f32 } else { long };
+                let o = rp(rng);
+                let (dx, dy) = if rng.chance(1, 2) { (long, short) } else { (short, long) };
+                (Item::Rect(Box2D { min: o, max: point(o.x + dx, o.y + dy) }, rng.chance(1, 2)), name)
+            }
+            10 => (Item::Circle(rp(rng), radius(rng), rng.chance(1, 2)), "circle"),
+            11 => (Item::Ellipse(rp(rng), vector(radius(rng), radius(rng)), rng.uniform(-3.0, 3.0) as f32, rng.chance(1, 2)), "ellipse"),
+            12 => {
+                let o = rp(rng);
+                let (dx, dy) = (ext * rng.uniform(0.2, 1.0) as f32, ext * rng.uniform(0.2, 1.0) as f32);
+                let m = dx.min(dy);
+                let mut r = [0.0f32; 4];
+                for x in r.iter_mut() {
+                    *x = if rng.chance(1, 4) { 0.0 } else { m * rng.uniform(0.0, 0.5) as f32 };
+                }
+                (Item::RoundRect(Box2D { min: o, max: point(o.x + dx, o.y + dy) }, r, rng.chance(1, 2)), "rounded-rect")
+            }
+            13 => {
+                let k = rng.range(2, 5) as usize;
+                (Item::Polygon((0..k).map(|_| rp(rng)).collect(), rng.chance(1, 2)), "polygon")
+            }
+            14 => (Item::Segment(rp(rng), rp(rng)), "segment"),
+            _ => (Item::PointAt(rp(rng)), "point"),
+        };
+        h.items.push(item);
+        h.last = name;
+    }
+    if builder {
+        // back to the case's configuration (a setter is also called when nothing changed, now and then)
+        if cur.0 != cfg.join || rng.chance(1, 4) {
+            h.items.push(Item::SetJoin(cfg.join));
+        }
+        if cur.1 != cfg.cap1 || rng.chance(1, 4) {
+            h.items.push(Item::SetStartCap(cfg.cap1));
+        }
+        if cur.2 != cfg.cap2 || rng.chance(1, 4) {
+            h.items.push(Item::SetEndCap(cfg.cap2));
+        }
+        if cur.3 != cfg.ml || rng.chance(1, 4) {
+            h.items.push(Item::SetMiterLimit(cfg.ml));
+        }
+    }
+    h
+}
+
+/// one call on the builder as the program model reads it (`Model/Tess/StrokeBuilderProg.lean`, `Cmd`)
+#[derive(Clone, Debug)]
+enum Cmd {
+    B(Point),
+    L(Point),
+    Q(Point, Point),
+    C(Point, Point, Point),
+    E(bool),
+    R(Box2D<f32>, bool),
+    P(Vec<Point>, bool),
+    S(Point, Point),
+    O(Point),
+    SJ(LineJoin),
+    SS(LineCap),
+    SE(LineCap),
+    SM(f32),
+}
+
+/// records the begin / line_to / curve / end calls a generic lyon_path helper (add_circle, add_ellipse,
+/// add_rounded_rectangle) makes
+struct Expand(Vec<Cmd>, u32);
+
+impl AttrPathBuilder for Expand {
+    fn num_attributes(&self) -> usize {
+        0
+    }
+    fn begin(&mut self, at: Point, _: &[f32]) -> EndpointId {
+        self.0.push(Cmd::B(at));
+        self.1 += 1;
+        EndpointId(self.1 - 1)
+    }
+    fn end(&mut self, close: bool) {
+        self.0.push(Cmd::E(close));
+    }
+    fn line_to(&mut self, to: Point, _: &[f32]) -> EndpointId {
+        self.0.push(Cmd::L(to));
+        self.1 += 1;
+        EndpointId(self.1 - 1)
+    }
+    fn quadratic_bezier_to(&mut self, ctrl: Point, to: Point, _: &[f32]) -> EndpointId {
+        self.0.push(Cmd::Q(ctrl, to));
+        self.1 += 1;
+        EndpointId(self.1 - 1)
+    }
+    fn cubic_bezier_to(&mut self, c1: Point, c2: Point, to: Point, _: &[f32]) -> EndpointId {
+        self.0.push(Cmd::C(c1, c2, to));
+        self.1 += 1;
+        EndpointId(self.1 - 1)
+    }
+}
+
+/// the whole program (history + the sub-path under test) as model commands
+fn prog_cmds(poly: &Poly, hist: &Hist) -> Vec<Cmd> {
+    let mut ex = Expand(Vec::new(), 0);
+    for it in &hist.items {
+        match it {
+            Item::Path(start, segs, close, _) => {
+                ex.0.push(Cmd::B(*start));
+                for s in segs {
+                    ex.0.push(match s {
+                        Seg::Line(p) => Cmd::L(*p),
+                        Seg::Quad(c, p) => Cmd::Q(*c, *p),
+                        Seg::Cubic(c1, c2, p) => Cmd::C(*c1, *c2, *p),
+                    });
+                }
+                ex.0.push(Cmd::E(*close));
+            }
+            Item::Rect(r, pos) => ex.0.push(Cmd::R(*r, *pos)),
+            Item::Circle(c, r, pos) => ex.add_circle(*c, *r, winding(*pos), &[]),
+            Item::Ellipse(c, r, rot, pos) => ex.add_ellipse(*c, *r, Angle::radians(*rot), winding(*pos), &[]),
+            Item::RoundRect(bx, r, pos) => ex.add_rounded_rectangle(bx, &radii_of(r), winding(*pos), &[]),
+            Item::Polygon(pts, closed) => ex.0.push(Cmd::P(pts.clone(), *closed)),
+            Item::Segment(p, q) => ex.0.push(Cmd::S(*p, *q)),
+            Item::PointAt(p) => ex.0.push(Cmd::O(*p)),
+            Item::SetJoin(j) => ex.0.push(Cmd::SJ(*j)),
+            Item::SetStartCap(c) => ex.0.push(Cmd::SS(*c)),
+            Item::SetEndCap(c) => ex.0.push(Cmd::SE(*c)),
+            Item::SetMiterLimit(m) => ex.0.push(Cmd::SM(*m)),
+        }
+    }
+    let pts = poly.f32pts();
+    match hist.via {
+        1 => ex.0.push(Cmd::P(pts, poly.closed)),
+        2 if pts.len() == 2 && !poly.closed => ex.0.push(Cmd::S(pts[0], pts[1])),
+        _ => {
+            ex.0.push(Cmd::B(pts[0]));
+            for q in &pts[1..] {
+                ex.0.push(Cmd::L(*q));
+            }
+            ex.0.push(Cmd::E(poly.closed));
+        }
+    }
+    ex.0
+}
+
+fn put_cmds(o: &mut Out, cmds: &[Cmd]) {
+    o.u(cmds.len() as u64);
+    for c in cmds {
+        match c {
+            Cmd::B(p) => {
+                o.t("B").p(*p);
+            }
+            Cmd::L(p) => {
+                o.t("L").p(*p);
+            }
+            Cmd::Q(c, p) => {
+                o.t("Q").p(*c).p(*p);
+            }
+            Cmd::C(c1, c2, p) => {
+                o.t("C").p(*c1).p(*c2).p(*p);
+            }
+            Cmd::E(c) => {
+                o.t("E").b(*c);
+            }
+            Cmd::R(r, pos) => {
+                o.t("R").p(r.min).p(r.max).b(*pos);
+            }
+            Cmd::P(pts, closed) => {
+                o.t("P").u(pts.len() as u64).b(*closed);
+                for p in pts {
+                    o.p(*p);
+                }
+            }
+            Cmd::S(p, q) => {
+                o.t("S").p(*p).p(*q);
+            }
+            Cmd::O(p) => {
+                o.t("O").p(*p);
+            }
+            Cmd::SJ(j) => {
+                o.t("SJ").t(join_name(*j));
+            }
+            Cmd::SS(c) => {
+                o.t("SS").t(cap_name(*c));
+            }
+            Cmd::SE(c) => {
+                o.t("SE").t(cap_name(*c));
+            }
+            Cmd::SM(m) => {
+                o.t("SM").f(*m);
+            }
+        }
+    }
+}
+
+impl Hist {
+    /// replay information on the CASE line of the checker families (not read by the model)
+    fn put(&self, poly: &Poly, o: &mut Out) {
+        o.t("hist").t(join_name(self.init.0)).t(cap_name(self.init.1)).t(cap_name(self.init.2)).f(self.init.3);
+        o.u(self.n_attr as u64).u(self.via as u64).b(self.warm.is_some());
+        if self.items.is_empty() {
+            o.u(0);
+        } else {
+            put_cmds(o, &prog_cmds(poly, self));
+        }
+    }
+    fn tag(&self) -> String {
+        format!("{}{}", if self.items.is_empty() { "alone".to_string() } else { format!("after:{}", self.last) }, if self.warm.is_some() { " used-tessellator" } else { "" })
+    }
 }
 
 // ---------------------------------------------------------------------------------------------
@@ -630,27 +1283,34 @@ fn stroke_case(ctx: &mut Ctx, fam: Fam) {
         let round = fam == Fam::RoundIn || fam == Fam::RoundOut;
         let max_segs = if round { 4 } else { 7 };
         let poly = gen_poly(rng, w, lattice, max_segs);
-        let cfg = gen_cfg(rng, w, round);
+        let mut cfg = gen_cfg(rng, w, round);
+        // the call history (drawn after everything else: a case id keeps its polyline and configuration,
+        // except that a program with shape helpers / setters runs on the builder entry)
+        let hist = gen_hist(rng, &poly, &mut cfg, false);
         let mut args = Out::new();
         cfg.put(&mut args);
         args.b(poly.closed).u(poly.pts.len() as u64);
         for p in poly.f32pts() {
             args.p(p);
         }
+        hist.put(&poly, &mut args);
         let nseg = poly.segments().len();
         let tag = format!(
-            "{} {} {} {}/{} {} n={}",
+            "{} {} {} {}/{} {} n={} {}",
             name,
             poly.kind,
             join_name(cfg.join),
             cap_name(cfg.cap1),
             cap_name(cfg.cap2),
             ENTRY[cfg.entry as usize],
-            nseg
+            nseg,
+            hist.tag()
         );
         (args, tag, move || {
-            let mut mesh = Mesh::new();
-            let res = run_stroke(&poly, &cfg, &mut mesh);
+            let mut rec = Rec::new(true);
+            let res = run_hist(&poly, &cfg, &hist, &mut rec);
+            // the triangles emitted for the sub-path under test (vertices by id: all are kept)
+            let mesh = rec.selected();
             let mut o = Out::new();
             let mut orc = Oracle::new();
             if let Err(e) = res {
@@ -658,11 +1318,17 @@ fn stroke_case(ctx: &mut Ctx, fam: Fam) {
                 orc.check(false, "stroke/success", "generic", || format!("tessellation error {}", e));
                 return (CaseOut { imp: o, orcl: orc.verdict }, None);
             }
-            o.t("ok").u(mesh.vertices.len() as u64).u((mesh.indices.len() / 3) as u64);
+            o.t("ok").u(rec.vsel.iter().filter(|s| **s).count() as u64).u((mesh.indices.len() / 3) as u64);
             let nv = mesh.vertices.len() as u32;
             orc.check(mesh.indices.len() % 3 == 0, "stroke/index-count", "generic", || "indices not a multiple of 3".into());
-            orc.check(mesh.indices.iter().all(|&i| i < nv), "stroke/index-valid", "generic", || "index out of range".into());
-            orc.check(mesh.vertices.iter().all(|p| p.x.is_finite() && p.y.is_finite()), "stroke/finite", "generic", || "non-finite vertex".into());
+            orc.check(rec.tris.iter().all(|t| t.iter().all(|&i| i < nv)), "stroke/index-valid", "generic", || "index out of range".into());
+            let fin = |p: &Point| p.x.is_finite() && p.y.is_finite();
+            orc.check(
+                mesh.vertices.iter().zip(rec.vsel.iter()).all(|(p, s)| !*s || fin(p)) && mesh.indices.iter().all(|&i| mesh.vertices.get(i as usize).map_or(true, fin)),
+                "stroke/finite",
+                "generic",
+                || "non-finite vertex".into(),
+            );
             orc.check(!mesh.indices.is_empty(), "stroke/nonempty", "generic", || "no triangles for a non-degenerate polyline".into());
             if orc.failed() {
                 return (CaseOut { imp: o, orcl: orc.verdict }, None);
@@ -911,6 +1577,60 @@ fn fullmesh_case(ctx: &mut Ctx) {
     });
 }
 
+/// The whole output of a PROGRAM on one `StrokeBuilder` - the call histories of the checker families (other
+/// sub-paths, every shape helper incl. thin / borderline / flat rectangles, option setters, a builder created
+/// with other options, a tessellator used before), then a polyline of the explored regime as the last
+/// sub-path - against the program model `StrokeBuilderProg.tessellateProg`: every vertex position in emission
+/// order, every triangle id.  (The model threads the vertex scratch by value: state that lyon forgets to
+/// re-assign between sub-paths shows up here as a position mismatch.)
+fn progmesh_case(ctx: &mut Ctx) {
+    ctx.case("progmesh:32", |rng| {
+        let lattice = rng.chance(1, 3);
+        let w = pick_width(rng, lattice);
+        let poly = gen_poly(rng, w, lattice, 5);
+        let mut cfg = gen_cfg(rng, w, false);
+        let hist = gen_hist(rng, &poly, &mut cfg, true);
+        let mut args = Out::new();
+        args.f(cfg.tol).f(cfg.w).f(hist.init.3).t(join_name(hist.init.0)).t(cap_name(hist.init.1)).t(cap_name(hist.init.2));
+        put_cmds(&mut args, &prog_cmds(&poly, &hist));
+        let tag = format!(
+            "progmesh {} {} {}/{} {} attrs={} segs={}",
+            poly.kind,
+            join_name(cfg.join),
+            cap_name(cfg.cap1),
+            cap_name(cfg.cap2),
+            hist.tag(),
+            hist.n_attr,
+            poly.segments().len()
+        );
+        (args, tag, move || {
+            let mut rec = Rec::new(true);
+            let res = run_hist(&poly, &cfg, &hist, &mut rec);
+            let mut o = Out::new();
+            let mut orc = Oracle::new();
+            match res {
+                Err(e) => {
+                    o.t("err").t(&e.replace(' ', "_"));
+                    orc.check(false, "stroke/success", "generic", || format!("tessellation error {}", e));
+                }
+                Ok(()) => {
+                    o.t("ok").u(rec.verts.len() as u64).u(rec.tris.len() as u64).t("v");
+                    for p in &rec.verts {
+                        o.p(*p);
+                    }
+                    o.t("t");
+                    for t in &rec.tris {
+                        for i in t {
+                            o.u(*i as u64);
+                        }
+                    }
+                }
+            }
+            CaseOut { imp: o, orcl: orc.verdict }
+        })
+    });
+}
+
 fn main() {
     let mut ctx = Ctx::from_args("C06");
     let n = ctx.n(250, 5000);
@@ -926,6 +1646,10 @@ fn main() {
             normal_case(&mut ctx);
             fullmesh_case(&mut ctx);
         }
+    }
+    // after everything else: the case ids of the older families do not move
+    for _ in 0..2 * n {
+        progmesh_case(&mut ctx);
     }
     ctx.finish();
 }
